@@ -68,6 +68,8 @@ def instances(tier, seed):
                 if nsite == 4 and tier != "quick":
                     seqs += [[2, 1], [1, 2], [0, 2], [2, 1, 0]]
                 for sq in seqs:
+                    if len(sq) >= 3 and not jw and model.startswith("spin"):
+                        continue      # three plain swaps with check_swap_consistency on every symbolic factor exhaust the path budget (outside the bound)
                     out.append(dict(op="opswap", model=model, jw=jw, swaps=sq, label="try_swap_site %s jw=%s sequence %s" % (model, jw, sq), key="opswap/%s/%s/sequence" % ("jw" if jw else "plain", model)))
     for model in ("vib",):
         for i in range(2):
